@@ -214,6 +214,59 @@ def audit_capture(cap, complete=True):
     return {"failures": fails, "stats": stats}
 
 
+def compare_with_solo(cap, solo):
+    """cap: a run executed after other runs in the same process; solo: the same run alone in a fresh process.
+    Every herd simulation and everything offered to the optimisers must be the same: the herds of a round are the
+    simulation of THAT round's inputs."""
+    fails = []
+
+    def same(a, b):
+        return len(a) == len(b) and all(abs(x - y) <= 1e-9 * max(1.0, abs(x), abs(y)) for x, y in zip(a, b))
+
+    def first_diff(a, b):
+        for m, (x, y) in enumerate(zip(a, b)):
+            if abs(x - y) > 1e-9 * max(1.0, abs(x), abs(y)):
+                return m, x, y
+        return -1, len(a), len(b)
+    if len(cap["herds"]) != len(solo["herds"]):
+        fails.append({"kind": "herd-stale", "what": f"{len(cap['herds'])} herd simulations after earlier runs, "
+                                                    f"{len(solo['herds'])} when run alone"})
+        return fails
+    for hi, (h, g) in enumerate(zip(cap["herds"], solo["herds"])):
+        for key in ("avail_feed", "avail_grass"):
+            if not same(h[key], g[key]):
+                # the INPUTS differ: the run itself is not reproducible (not this property's business) - stop here
+                return fails
+        for key in ("grass_used", "feed_used"):
+            if not same(h[key], g[key]):
+                m, x, y = first_diff(h[key], g[key])
+                fails.append({"kind": "herd-stale", "herd": hi, "month": m,
+                              "what": f"herd {hi} {key} month {m}: {x!r} after earlier runs in the process, {y!r} when the "
+                                      f"same run is executed alone (same feed and grass offered): the herds are not the "
+                                      f"simulation of this run's inputs"})
+                return fails
+        if [a["type"] for a in h["animals"]] != [a["type"] for a in g["animals"]]:
+            fails.append({"kind": "herd-stale", "herd": hi, "what": f"herd {hi}: species order differs from the solo run"})
+            return fails
+        for a, b in zip(h["animals"], g["animals"]):
+            for key in ("slaughter", "population"):
+                if not same(a[key], b[key]):
+                    m, x, y = first_diff(a[key], b[key])
+                    fails.append({"kind": "herd-stale", "herd": hi, "month": m,
+                                  "what": f"herd {hi} {a['type']} {key} month {m}: {x!r} after earlier runs, {y!r} alone"})
+                    return fails
+    oa = [e for e in cap["events"] if e["ev"] == "opt"]
+    ob = [e for e in solo["events"] if e["ev"] == "opt"]
+    for k, (x, y) in enumerate(zip(oa, ob)):
+        for key in ("monthly", "milk", "running"):
+            if not same(x[key], y[key]):
+                m, u, v = first_diff(x[key], y[key])
+                fails.append({"kind": "offer-stale", "round": k + 1, "month": m,
+                              "what": f"round {k + 1} {key} month {m}: optimiser given {u!r} after earlier runs, {v!r} alone"})
+                return fails
+    return fails
+
+
 def audit_direct(case, res):
     """fabricated herd: meat/milk formulas evaluated exactly vs what the implementation produced"""
     fails = []
@@ -244,8 +297,10 @@ def replay_main(payload):
     import c05_impl
     rep = payload["replay"]
     if "iso3" in rep:
-        c05_impl.redirect_results()
-        r = c05_impl.one_run({"iso3": rep["iso3"], "option": rep["option"], "audit_only": True})
+        job = {"iso3": rep["iso3"], "option": rep["option"], "audit_only": True}
+        if rep.get("prelude"):
+            job["prelude"] = rep["prelude"]
+        r = c05_impl.run_runs([job], 2)[0]
         fl_ = r.get("audit", {}).get("failures", [])
         if "err" in r:
             fl_ = fl_ + [{"kind": "run-crashed", "what": r["err"]}]
